@@ -33,6 +33,10 @@ pub struct Hist {
     dead_savepoints: Vec<String>,
     /// C24: hostile statements (extreme literals, multi-byte strings, missing objects) are mixed in
     hostile: bool,
+    /// C11: a VARCHAR staging table feeding a DATE/TIME table through INSERT ... SELECT (values that
+    /// only fail when the stored form is built)
+    dates: bool,
+    next_date_key: i64,
 }
 
 /// One statement built to reach value-dependent failure modes: slicing inside multi-byte characters,
@@ -313,7 +317,7 @@ impl Scenario for Hist {
     const NAME: &'static str = "hist";
 
     fn new(prop: &str, sw: &Swarm) -> Self {
-        Hist { sut: Sut::new(), world: World::default(), sw: sw.clone(), setup: Vec::new(), begin_snap: None, begin_world: None, sp_stack: Vec::new(), dead_savepoints: Vec::new(), hostile: prop == "C24" }
+        Hist { sut: Sut::new(), world: World::default(), sw: sw.clone(), setup: Vec::new(), begin_snap: None, begin_world: None, sp_stack: Vec::new(), dead_savepoints: Vec::new(), hostile: prop == "C24", dates: prop == "C11" && sw.max_rows_stmt % 2 == 0, next_date_key: 0 }
     }
 
     fn next_op(&mut self, rng: &mut Rng, cx: &mut Ctx) -> Option<Op> {
@@ -395,6 +399,29 @@ impl Scenario for Hist {
             ops.reverse();
             self.setup = ops;
             return self.setup.pop();
+        }
+        if self.dates && self.world.next_name > 0 && rng.chance(1, 7) {
+            if self.next_date_key == 0 {
+                self.next_date_key = 1;
+                self.setup = vec![
+                    Op::new(Kind::Other, "CREATE TABLE ts (c0 INTEGER, d VARCHAR(12), t VARCHAR(12))".into()),
+                    Op::new(Kind::Other, "CREATE TABLE td (c0 INTEGER, d DATE, t TIME)".into()),
+                ];
+                return self.setup.pop();
+            }
+            self.next_date_key += 1;
+            let k = self.next_date_key;
+            let d = *rng.pick(&["'2024-02-29'", "'1999-12-31'", "'2023-02-30'", "'not a date'", "''", "NULL", "'2024-13-01'"]);
+            let t = *rng.pick(&["'12:34:56'", "'00:00:00'", "'25:00:00'", "'x'", "NULL", "'12:34:56.5'"]);
+            return Some(match rng.below(4) {
+                0 | 1 => Op::new(Kind::Insert, format!("INSERT INTO ts VALUES ({}, {}, {})", k, d, t)).table("ts"),
+                2 => {
+                    let mut op = Op::new(Kind::InsertSelect, "INSERT INTO td SELECT * FROM ts".into()).table("td");
+                    op.fault = "insert-select-dates".into();
+                    op
+                }
+                _ => Op::new(Kind::Delete, format!("DELETE FROM ts WHERE c0 <= {}", rng.range(0, k))).table("ts"),
+            });
         }
         if self.hostile && rng.chance(1, 4) {
             let mut op = Op::new(Kind::Hostile, gen_hostile(rng, &def));
@@ -535,6 +562,35 @@ impl Scenario for Hist {
                     0 => {
                         let ci = rng.usize(def.cols.len());
                         let e = gen_set_expr(rng, &sw, &self.sut, &def, ci);
+                        let mut base = base;
+                        let stored = table_rows(&self.sut, &def.name).unwrap_or_default();
+                        if def.uniques.len() >= 2 && !stored.is_empty() && rng.chance(1, 2) {
+                            // a row that collides only on a later UNIQUE constraint and is NULL in the earlier
+                            // ones (conflict detection must look at every constraint on its own)
+                            let j = 1 + rng.usize(def.uniques.len() - 1);
+                            let model = rng.pick(&stored).clone();
+                            let mut row: Vec<Lit> = def.cols.iter().map(|c| gen_value(rng, &sw, c, true)).collect();
+                            for &k in &def.pk {
+                                if def.cols[k].ty == Ty::Int {
+                                    row[k] = Lit::Int(rng.range(1000, 3000));
+                                }
+                            }
+                            for u in &def.uniques[..j] {
+                                for &k in u {
+                                    if !def.cols[k].not_null && !def.pk.contains(&k) {
+                                        row[k] = Lit::Null;
+                                    }
+                                }
+                            }
+                            for &k in &def.uniques[j] {
+                                row[k] = match &model[k] {
+                                    SqlValue::Integer(i) | SqlValue::Bigint(i) => Lit::Int(*i),
+                                    SqlValue::Varchar(t) | SqlValue::Character(t) => Lit::Str(t.clone()),
+                                    _ => Lit::Null,
+                                };
+                            }
+                            base = Op::insert(&def.name, &[], vec![row]);
+                        }
                         let mut op = Op::new(Kind::Other, format!("{} ON DUPLICATE KEY UPDATE {} = {}", base.sql, def.cols[ci].name, e)).table(&def.name);
                         op.fault = "on-duplicate-key-update".into();
                         op
